@@ -242,9 +242,7 @@ func RunOne(t *testing.T, p *Prop, sc Scenario, tier string, keepTrace int) (res
 		synctest.Test(t, func(t *testing.T) {
 			k := kernel.New(sched)
 			k.KeepTrace = keepTrace
-			if c.Uncontrol {
-				kernel.Uninstall()
-			}
+			k.Free = c.Uncontrol
 			env.K = k
 			defer func() {
 				for _, f := range env.AtEnd {
